@@ -1,5 +1,6 @@
 import RSV.Proofs.Dispatch
 import RSV.Props.Consts
+import RSV.Props.C07opts
 
 /-!
 # C07 — results do not depend on goroutine settings / split sizes / kernel granularity
